@@ -13,6 +13,7 @@ import (
 	"github.com/invopop/gobl"
 	"github.com/invopop/gobl/bill"
 	"github.com/invopop/gobl/c14n"
+	"github.com/invopop/gobl/head"
 	"github.com/invopop/gobl/internal/cli"
 	"github.com/invopop/gobl/internal/iotools"
 	"github.com/invopop/gobl/schema"
@@ -354,6 +355,21 @@ func (x *X) chain(env *gobl.Envelope, where string) {
 		if r != nil {
 			_ = r.Validate()
 		}
+	})
+	x.guard("Correct(options)", where, func() {
+		// every option at once, as Go options and as raw JSON
+		r, err := env.Correct(bill.Corrective, bill.WithReason("x"), bill.WithCopyTax(), bill.WithSeries("S"), bill.WithIssueDate(mustDate("2024-03-01")),
+			bill.WithStamps([]*head.Stamp{{Provider: "sim-prv-a", Value: "v"}}), bill.WithExtension("es-tbai-correction", "R1"))
+		x.checkGoblErr("Correct", where, err)
+		if r != nil {
+			_ = r.Validate()
+		}
+		_, err = env.Correct(bill.WithData([]byte(`{"type":"debit-note","reason":"y","copy_tax":true,"stamps":[{"prv":"sat-uuid","val":"v"}],"ext":{"co-dian-debit-code":"1"},"series":"D","issue_date":"2024-03-02"}`)))
+		x.checkGoblErr("Correct", where, err)
+		_, err = env.Correct(bill.WithData([]byte(`{"type":`)))
+		x.checkGoblErr("Correct", where, err)
+		_, err = env.Correct()
+		x.checkGoblErr("Correct", where, err)
 	})
 	x.guard("Replicate", where, func() {
 		var r *gobl.Envelope
